@@ -135,7 +135,7 @@ func c03(tier string) []*explore.Scenario {
 	}
 	// through the proxy: a handler that returns (successfully) while its caller still sends - the resets for the late
 	// messages follow the trailer through every hop, so the caller still sees the handler's outcome
-	out = append(out, c16RPCFam("C03", "early-return", true, 2))
+	out = append(out, c16RPCFam("C03", "early-return", true, 1))
 	for _, kind := range []string{"Unary", "Bidi", "SStream", "CStream"} {
 		out = append(out, c03Shapes(kind, tier == "thorough"))
 	}
